@@ -17,7 +17,7 @@ Definition ex_s0 : state :=
      ap := {| a_max_memo := 256; a_sig_limit := 7; a_fee_default := 1; a_fee_multis := [] |};
      ma := {| m_fee := FEE; m_pool := POOL; m_pos := POS; m_dao := DAO |};
      acl := [([1]%N, A1)]; dao_owner := A1; params_raw := []; height := 0; btime := 0;
-     haspk := [(A1, tt); (A2, tt); (A3, tt)] |}.
+     haspk := [(A1, A1); (A2, A2); (A3, A3)] |}.
 Definition ex_genesis := init_chain ex_s0 [(A1, [11]%N, 2000000)] 500.
 Definition ex_tx (m : msg) (signer : bytes) (fee : Z) : tx :=
   {| t_msg := m; t_fee := fee; t_memo_len := 0; t_attached := Some signer; t_multi_count := 0;
